@@ -16,9 +16,6 @@ def run(tier, only=None):
     sks = families.c10_families(quick, kinds)
     if only:
         sks = [s for s in sks if fnmatch.fnmatch(s.name, only)]
-    rep.add(eng.run_family(sks))
-    for k, ok, r in eng.confirm_known(sks):
-        rep.known(k, ok, r)
     # --- lookup level: every operand-kind string per mnemonic --------------
     te = tok.TokEngine("C10", tier)
     mns = sorted(kinds)
@@ -40,7 +37,6 @@ def run(tier, only=None):
         return te.unit(j[0], j[1], defs=j[2], unwind=12, checks="default", timeout=600,
                        unwindset={"str_to_instr_key.0": te.tb["instr_rows"] + 8, "str_to_instr_key.1": te.tb["instr_rows"] + 8,
                                   "get_opd_format.0": te.tb["opd_rows"] + 4})
-    rep.add(core.pmap(kjob, jobs))
 
     def ujob(u):
         kw = {}
@@ -49,14 +45,19 @@ def run(tier, only=None):
         rp = [("__CPROVER_file_local_parser_c_line_to_instr", "stub_line_to_instr")] if u[1] == "tok_filter.c" else []
         return te.unit(u[0], u[1], defs=u[2], unwind=110, checks="default", timeout=1500, replace=rp,
                        unwindset={"find_reg.0": te.tb["reg_rows"] + 2, "strcmp.0": 12, "strstr.0": 110, "strstr.1": 110}, **kw)
-    rep.add(core.pmap(ujob, units))
     # --- position and mode (API layer) -------------------------------------
     ge = glue.GlueEngine("C10", tier)
     gq = [("c10.position.c%d" % c, ["-DKMAX=3", "-DNPROG=1", "-DGBUF=64", "-DLMAX=13", "-DCFIX=%d" % c, "-DGLUE_NOWRITE"]) for c in ([5] if quick else [3, 5, 16])]
     if only:
         gq = [g for g in gq if fnmatch.fnmatch(g[0], only)]
-    rep.add(core.pmap(lambda g: ge.run(g[0], "glue_c10.c", defs=g[1], unwind=20,
-                                       unwindset={"assemble_all.0": 5, "__CPROVER_file_local_parser_c_assemble_with_chunk_fitting.0": 4, "nop_padding.1": 3}), gq))
+    def gjob(g):
+        return ge.run(g[0], "glue_c10.c", defs=g[1], unwind=20,
+                      unwindset={"assemble_all.0": 5, "__CPROVER_file_local_parser_c_assemble_with_chunk_fitting.0": 4, "nop_padding.1": 3})
+    # one pool: the long queries first
+    rep.add(core.pmap_mixed([(gjob, g) for g in gq] + [(ujob, u) for u in units] + [(kjob, j) for j in jobs] +
+                            [(lambda sk: eng.run_family([sk])[0], sk) for sk in sks]))
+    for k, ok, r in eng.confirm_known(sks):
+        rep.known(k, ok, r)
     return rep.finish(
         {"text_level_skeletons": len(sks), "lookup_level_queries": len(jobs), "mnemonics_lookup_level": len(mns),
          "symbolic_per_query": "text level: registers of every class/width/number in each operand slot, all options; lookup level: every operand-kind string of up to 4 letters over {r,v,y,m,i} with the first letter fixed per query; strtoreg: every string of 1..5 printable characters; nonprint: arbitrary bytes with a byte > 0x7e at an arbitrary position before the line end; position: failing line at any position of a 3-line program in plain, fitting and counting mode"},
